@@ -149,7 +149,11 @@ def evaluate_cases(mod, cases, pool):
         for m in ms:
             if common.is_model_error(m):
                 fail = {'clause': 'model-error', 'detail': common.sx(m), 'no_input': True}
-        if fail is None:
+        if fail is None and r.get('fail') is not None:
+            fail = r['fail']
+            if isinstance(fail, str):
+                fail = {'clause': fail}
+        elif fail is None:
             try:
                 fail = mod.compare(case, r, ms)
             except Exception as e:
@@ -297,14 +301,21 @@ def main():
             known = load_known(pid)
             seen_sig = set()
             per_clause = {}
-            for case, fail in failures[:40]:
+            unknown = []
+            for case, fail in failures:
+                kf = mod.match_known(case, fail, known) if hasattr(mod, 'match_known') else None
+                if kf is not None:
+                    if kf['id'] not in known_hit:
+                        known_hit.append(kf['id'])
+                        log('KNOWN-FINDING: property=%s %s' % (pid, kf['what']))
+                    continue
+                unknown.append((case, fail))
+            for case, fail in unknown:
                 per_clause[fail.get('clause')] = per_clause.get(fail.get('clause'), 0) + 1
                 if per_clause[fail.get('clause')] > 3:
                     continue
                 kf = None
-                if hasattr(mod, 'match_known'):
-                    kf = mod.match_known(case, fail, known)
-                if kf is None and not fail.get('no_input'):
+                if not fail.get('no_input'):
                     case, fail = shrink(mod, case, fail, pool)
                     if hasattr(mod, 'match_known'):
                         kf = mod.match_known(case, fail, known)
@@ -317,9 +328,6 @@ def main():
                 if sig in seen_sig:
                     continue
                 seen_sig.add(sig)
-                violations.append((write_replay(pid, case, fail), bool(fail.get('no_input'))))
-            if len(failures) > 40 and not violations:
-                case, fail = failures[40]
                 violations.append((write_replay(pid, case, fail), bool(fail.get('no_input'))))
         finally:
             pool.terminate()
